@@ -203,7 +203,12 @@ def run(ctx):
     ln = ctx.n(12, 40)
     texts = []
     for i in range(n):
-        if i % 2:
+        if i % 3 == 2:
+            # operations fed by measured registers of modes they do not act on themselves
+            script, _, _ = gen.gen_rrt_script(ctx.rng, {"depth": 1, "max_items": 6, "array_args": True})
+            info = {"params": [], "array_params": {}}
+            ctx.count("program-with-register-arguments")
+        elif i % 3 == 1:
             script, info, _ = gen.gen_template(ctx.rng, {"depth": 2, "max_items": 6, "array_args": True})
             ctx.count("template")
         else:
